@@ -312,3 +312,8 @@ PROPS['C10'].update(run_files=['Tie.v', 'TieWf.v', 'PropsC10.v', 'TieFp.v', 'Tie
 TEXT['C10']['level'] = ('PROOF on the model for every machine-backed entry point and for the two large hand-written readers: PropsC10 (Safety.machines_safe under wf_check): SkipValue, SkipValueFast, Valid, HandleArrayValues, HandleObjectValues, the literal and string machines never panic, terminate within 2*len+2 dispatches and report nil-error offsets in [0,len], for ALL inputs, ALL int64 handler offsets (C10_offsets_out_of_range: consumed offsets that do not fit are errPOutOfRange), ALL buffer contents; PropsC10b: C10_ReadFloat64_total / C10_ParseJSONFloatPrefix_total (FpTotal.v: every loop of the scanner, decimal.set, both shifts and floatBits terminates within its bound and every table index is in range, for ALL byte strings, over the REGENERATED tables) with C10_ReadFloat64_offset (offset inside the input in every case), C10_ReadValue_total (the generic reader, through TreeTie); integer readers: total by construction with proved ranges (IntFacts). Correspondence: every exported function on hostile inputs / handlers / buffers (recover + watchdog), nesting 10001/20000 in every mixture incl. sibling-shaped, 20 kB tokens, boundary exponents, exact subnormal ties, tiny capacities. One known finding (offsets for number/literal members are ignored).')
 PROPS['C17']['static_files'] = PROPS['C17']['static_files'] + ['ValueReader.v', 'TreeCompat.v']
 TEXT['C17']['level'] = ('PROOF, complete on the model: CompatFacts.compat_spec (StdLibCompatibleString = the Unicode Table 3-7 sanitiser: each byte not part of a valid sequence becomes U+FFFD, everything else unchanged), sanitize_valid / sanitize_valid_id / sanitize_idempotent / sanitize_app_valid, compat_bytes_append (StringBytes appends exactly those bytes); tree helpers (TreeCompat.v): compat_tree_spec (StdLibCompatibleValue/Slice/Map = the sanitiser mapped over every string and key at every depth, objects rebuilt last-wins), compat_tree_valid, compat_tree_id (valid trees unchanged), compat_tree_idempotent, scalars unchanged. Correspondence: all 1-byte, most 2-byte, class-wise 3/4-byte strings, destinations with every small (len,cap), trees incl. invalid keys and values under them (argument-unmodified check); oracle = encoding/json round trip.')
+
+# C12: closed form of every Decode function over the regenerated tables
+PROPS['C12'].update(run_files=['Tie.v', 'TieWf.v', 'TieSim.v', 'PropsC02.v', 'PropsC12.v'],
+                    static_files=MACH_STATIC + ['DecodeFacts.v', 'Sim.v', 'SpecMachines.v', 'Ref.v', 'SpecFacts.v'])
+TEXT['C12']['level'] = ('PROOF on the model, end to end for the null test: PropsC12.C12_DecodeInt64 ... C12_DecodeUint, C12_DecodeFloat64, C12_DecodeBool, C12_DecodeString: for ALL inputs and ALL initial targets each Decode function (model of decode.go over the REGENERATED readNull / readBool / string tables) stores the value and returns the offset of its reader when the reader succeeds; otherwise, when the input is whitespace followed by the literal null (the reference of ReadNull, C13) it returns the offset after null, no error and the target unchanged; otherwise the reader\'s own error with the target unchanged (C12_target_unchanged_unless_reader_succeeds); never abnormal (C12_decode_total). Static: DecodeFacts.decode_with_spec and corollaries, generic in the reader. Correspondence: every Decode function x 3 non-zero initial targets x inputs incl. null placed exactly where each reader gives up, -0 and integers at the reader limits (a Decode function that does not simply run its reader differs there), string-buffer histories checking that a failing DecodeString leaves its target alone.')
